@@ -41,6 +41,16 @@ func c05Config(r *hx.Run) string {
 		return ""
 	}
 	var sb strings.Builder
+	if rr.Intn(2) == 0 {
+		// the same check text with a different severity per file: identical problems that differ only in
+		// severity (and path) are what duplicate folding sees
+		for _, f := range []string{"r", "s"} {
+			fmt.Fprintf(&sb, "rule {\n  match {\n    path = \"rules/%s.yml\"\n  }\n", f)
+			fmt.Fprintf(&sb, "  report {\n    comment = \"same text\"\n    severity = %q\n  }\n", hx.Pick(rr, c05Sev))
+			fmt.Fprintf(&sb, "  label \"team\" {\n    severity = %q\n    required = true\n  }\n}\n", hx.Pick(rr, c05Sev))
+		}
+		return sb.String()
+	}
 	sb.WriteString("rule {\n")
 	if rr.Intn(2) == 0 {
 		fmt.Fprintf(&sb, "  annotation \"summary\" {\n    severity = %q\n    required = true\n  }\n", hx.Pick(rr, c05Sev))
@@ -82,6 +92,7 @@ func c05Eval(r *hx.Run, cs c05Case) {
 	if cs.Command == "lint" {
 		must(os.MkdirAll(filepath.Join(dir, "rules"), 0o755))
 		must(os.WriteFile(filepath.Join(dir, "rules", "r.yml"), []byte(cs.File), 0o644))
+		must(os.WriteFile(filepath.Join(dir, "rules", "s.yml"), []byte(cs.File), 0o644))
 		args = append(args, "lint", "--json", jsonPath)
 		args = append(args, cs.Args...)
 		args = append(args, "rules")
@@ -94,6 +105,7 @@ func c05Eval(r *hx.Run, cs c05Case) {
 		hx.Git(dir, "commit", "-q", "-m", "base")
 		hx.Git(dir, "checkout", "-q", "-b", "feature")
 		must(os.WriteFile(filepath.Join(dir, "rules", "r.yml"), []byte(cs.File), 0o644))
+		must(os.WriteFile(filepath.Join(dir, "rules", "s.yml"), []byte(cs.File), 0o644))
 		hx.Git(dir, "add", "-A")
 		hx.Git(dir, "commit", "-q", "-m", "add rules")
 		args = append(args, "ci", "--base-branch", "main", "--json", jsonPath)
